@@ -15,17 +15,22 @@ Accepts(x) ==
   /\ x.noslip = 0                                           \* no noslip post-processing
   /\ x.flags \cap UnsupportedFlags = {}
   /\ ~("en_sleep" \in x.flags /\ x.solver # "Newton")       \* sleeping needs the Newton solver
-  /\ ~(x.jacobian = "dense" /\ x.bignv)                     \* dense Jacobian only up to 60 dofs
+  /\ ~(x.jacobian = "dense" /\ x.size = "big")              \* dense Jacobian only up to 60 dofs
   /\ ~x.distance_eq                                         \* removed equality type
 RandSub(S) == LET RECURSIVE Go(_) Go(T) == IF T = {} THEN {} ELSE LET e == CHOOSE z \in T : TRUE IN (IF RandomElement(1..8) = 1 THEN {e} ELSE {}) \cup Go(T \ {e}) IN Go(S)
 RandCfg(u) == [solver |-> (LET r == RandomElement(1..6) IN IF r = 1 THEN "PGS" ELSE IF r <= 3 THEN "CG" ELSE "Newton"), integrator |-> RandomElement(Integrators), noslip |-> (IF RandomElement(1..6) = 1 THEN 3 ELSE 0), flags |-> RandSub(Flags),
-               jacobian |-> RandomElement({"dense", "sparse", "auto"}), bignv |-> (RandomElement(1..5) = 1), cone |-> RandomElement({"pyramidal", "elliptic"}),
+               jacobian |-> RandomElement({"dense", "sparse", "auto"}), size |-> (LET r == RandomElement(1..5) IN IF r = 1 THEN "big" ELSE IF r = 2 THEN "mid" ELSE "small"), cone |-> RandomElement({"pyramidal", "elliptic"}),
                distance_eq |-> FALSE]
 Init == c = RandCfg(0) /\ k = 1
 Next == k < NCfg /\ c' = RandCfg(k) /\ k' = k + 1
 Spec == Init /\ [][Next]_vars
 \* sanity of the table: a fully default configuration is accepted; rejection is monotone in the unsupported choices
-DefaultAccepted == Accepts([solver |-> "Newton", integrator |-> "Euler", noslip |-> 0, flags |-> {}, jacobian |-> "auto", bignv |-> FALSE, cone |-> "pyramidal", distance_eq |-> FALSE])
+DefaultAccepted == Accepts([solver |-> "Newton", integrator |-> "Euler", noslip |-> 0, flags |-> {}, jacobian |-> "auto", size |-> "small", cone |-> "pyramidal", distance_eq |-> FALSE])
 Monotone == ~Accepts(c) => \A f \in Flags : ~Accepts([c EXCEPT !.flags = c.flags \cup {f}])
-EmitCfg == PrintT(<<"EMIT", "cfg", ToJson([c |-> c, accepted |-> Accepts(c)])>>)
+\* model sizes: small = 6 dofs, mid = 45 dofs, big = 63 dofs.  With jacobian="auto" the device representation turns sparse above 32 dofs, the
+\* host's (MuJoCo, mj_isSparse) at 60: for "mid" the two differ, and get_data_into must still hand back rows MuJoCo reads correctly.
+Nv(x) == CASE x.size = "small" -> 6 [] x.size = "mid" -> 45 [] x.size = "big" -> 63
+SparseDevice(x) == x.jacobian = "sparse" \/ (x.jacobian = "auto" /\ Nv(x) > 32)
+SparseHost(x) == x.jacobian = "sparse" \/ (x.jacobian = "auto" /\ Nv(x) >= 60)
+EmitCfg == PrintT(<<"EMIT", "cfg", ToJson([c |-> c, accepted |-> Accepts(c), nv |-> Nv(c), sparse_device |-> SparseDevice(c), sparse_host |-> SparseHost(c)])>>)
 =============================================================================
